@@ -22,8 +22,8 @@ def fx(v):
     if v == -math.inf:
         return -BIG
     r = int(round(v * FX))
-    if abs(r) >= BIG:
-        raise common.MachineryError(f'value {v} out of the fixed-point range of the trace format')
+    if abs(r) >= BIG:          # saturate: an absurd value must surface as a mismatch, not as a machinery failure
+        return BIG - 1 if r > 0 else -(BIG - 1)
     return r
 
 
@@ -264,10 +264,19 @@ def run_geo(inst, cf, conc, ops=None, unique=False, full=True, snapper=None):
         if conc.triples:
             path_all = [(p[0], p[1], 1000.0 + 7 * i) for i, p in enumerate(path_all)]
         W = cf['W']
+        last = ([], 0)
         for op, arg in ops:
+            if op in ('cwd', 'rematch') and (m.lattice is None or m.early_stop_idx is None or m.early_stop_idx == 0
+                                             or not cf['only_edges'] or cf['max_dist'] is None):
+                continue        # continue_with_distance is documented for an early-stopped match with edge states
             o = {'op': op, 'arg': arg, 'w': W, 'unique': unique, 'exc': ''}
             try:
-                if op == 'match':
+                if op == 'cwd':
+                    m.continue_with_distance()
+                    states, idx = last
+                elif op == 'rematch':
+                    states, idx = m.match(path_all[:arg], unique=unique, expand=True)
+                elif op == 'match':
                     states, idx = m.match(path_all[:arg], unique=unique)
                 elif op == 'extend':
                     states, idx = m.match(path_all[:arg], unique=unique, expand=True)
@@ -280,6 +289,7 @@ def run_geo(inst, cf, conc, ops=None, unique=False, full=True, snapper=None):
                 if states is None:
                     o['exc'] = 'match returned None instead of a state list'
                     states = []
+                last = (states, idx)
                 o['states'] = [[conc.unlab(s[0]), conc.unlab(s[1])] if isinstance(s, tuple) else [conc.unlab(s)] for s in states]
                 o['idx'] = idx if isinstance(idx, int) else -99
             except common.MachineryError:
@@ -344,8 +354,8 @@ def mx(v, scale=1000):
     if v is None or v != v or abs(v) == math.inf:
         return -BIG
     r = int(round(v * scale))
-    if abs(r) >= 2 * 10 ** 8:
-        raise common.MachineryError(f'value {v} out of range for the model trace')
+    if abs(r) >= 10 ** 6 * 20:     # saturate (keeps TLC's 32-bit products in range); shows up as a mismatch
+        return 2 * 10 ** 7 - 1 if r > 0 else -(2 * 10 ** 7 - 1)
     return r
 
 
@@ -359,10 +369,11 @@ def _d(p, q):
     return math.hypot(p[0] - q[0], p[1] - q[1])
 
 
-def model_record(tid, inst, cf, ops=None):
+def model_record(tid, inst, cf, ops=None, k=0):
     """run the real matcher at unit scale on the plane and record EVERY lattice entry with the quantities the
     documented model is stated in (spec/Models.tla validates them)."""
-    conc = Conc()
+    conc = Conc(k=k)          # k < 0: planar coordinates of 1e-4 .. 1e-5 units (degrees / kilometres used as x-y)
+    S = conc.s
     evs, m = run_geo(inst, cf, conc, ops=ops, full=False)
     if evs[-1]['exc']:
         return None, evs[-1]['exc']
@@ -385,22 +396,22 @@ def model_record(tid, inst, cf, ops=None):
         pi = x.edge_m.pi if x.edge_m.pi is not None else x.edge_m.p1
         e = {'st': st, 'obs': x.obs, 'ne': x.obs_ne, 'prev': index[id(p)] if p is not None else 0,
              'lp': mx(x.logprob), 'lpe': mx(x.logprobe), 'lpne': mx(x.logprobne), 'len': x.length,
-             'dist': mx(x.dist_obs), 'd2': mx(x.dist_obs ** 2), 'ti': mx(x.edge_m.ti if x.edge_m.ti is not None else 0.0, 10000),
-             'pi': [mx(pi[0]), mx(pi[1])], 'stop': bool(x.stop),
-             'do': mx(getattr(x, 'd_o', 0.0)), 'ds': mx(getattr(x, 'd_s', 0.0)), 'lpt': mx(getattr(x, 'lpt', 0.0)),
+             'dist': mx(x.dist_obs / S), 'd2': mx((x.dist_obs / S) ** 2), 'ti': mx(x.edge_m.ti if x.edge_m.ti is not None else 0.0, 10000),
+             'pi': [mx(pi[0] / S), mx(pi[1] / S)], 'stop': bool(x.stop),
+             'do': mx(getattr(x, 'd_o', 0.0) / S), 'ds': mx(getattr(x, 'd_s', 0.0) / S), 'lpt': mx(getattr(x, 'lpt', 0.0)),
              'lpe1': mx(getattr(x, 'lpe', 0.0)), 'tiless': False, 'ca': 0, 'cb1': 0, 'cb2': 0, 'cz': 0}
         if p is not None:
             tp = p.edge_m.ti if p.edge_m.ti is not None else 0.0
             tx = x.edge_m.ti if x.edge_m.ti is not None else 0.0
             e['tiless'] = bool(tx < tp)
             ppi = p.edge_m.pi if p.edge_m.pi is not None else p.edge_m.p1
-            e['ca'] = mx(_d(ppi, pi))
+            e['ca'] = mx(_d(ppi, pi) / S)
             if p.edge_m.p2 is not None:
-                e['cb1'] = mx(_d(ppi, p.edge_m.p2))
-                e['cb2'] = mx(_d(p.edge_m.p2, pi))
+                e['cb1'] = mx(_d(ppi, p.edge_m.p2) / S)
+                e['cb2'] = mx(_d(p.edge_m.p2, pi) / S)
             po = p.edge_o.pi if p.edge_o.pi is not None else p.edge_o.p1
             xo = x.edge_o.pi if x.edge_o.pi is not None else x.edge_o.p1
-            e['cz'] = mx(_d(po, xo))
+            e['cz'] = mx(_d(po, xo) / S)
         entries.append(e)
     path = [index[id(x)] for x in (m.lattice_best or [])]
     T = len(inst['path'])
